@@ -141,15 +141,19 @@ impl SyncReadBuf {
                 let capacity = inner.buf_capacity();
                 let available_space = capacity - current_len;
 
-                // If target space is less than base capacity, grow the buffer.
-                let target_space = self.base_capacity;
+                // If target space is less than base capacity, grow the buffer, but
+                // never beyond the size limit.
+                let target_space = self.base_capacity.min(self.max_buffer_size - current_len);
                 if available_space < target_space {
                     let new_capacity = current_len + target_space;
                     let _ = inner.reserve_exact(new_capacity - capacity);
                 }
 
+                // The allocation may be larger than requested: offer the stream no
+                // more room than the limit allows.
                 let len = inner.buf_len();
-                let read_slice = inner.slice(len..);
+                let end = inner.buf_capacity().min(self.max_buffer_size);
+                let read_slice = inner.slice(len..end);
                 stream.read(read_slice).await.into_inner()
             })
             .await?;
